@@ -73,7 +73,8 @@ def rand_case(rng, force=None):
     if rng.random() < 0.5:
         orient = dict(kind="powder", N=rng.choice([2, 3, 4, 5, 8, 12, 16, 32]), mode=rng.choice(MODES))
     else:
-        orient = dict(kind="crystal", theta=rng.choice([0.0, math.pi / 2, rng.uniform(0, math.pi)]), phi=rng.choice([0.0, rng.uniform(0, 2 * math.pi)]))
+        orient = dict(kind="crystal", theta=rng.choice([0.0, math.pi / 2, rng.uniform(0, math.pi), rng.uniform(-math.pi, 0), rng.uniform(math.pi, 2 * math.pi)]),
+                      phi=rng.choice([0.0, rng.uniform(0, 2 * math.pi), rng.uniform(-2 * math.pi, 0)]))
     flags = rng.choice(["CS_ISO", "CS_ORIENT", "CS", "CS", "STATIC", "MAS", "Q_STATIC", "Q_MAS", "CS|Q_1_ORIENT", "CS|Q_2_SHIFT", "CS_ISO|Q_2_STATIC", "CS|Q_2_ORIENT_MAS"])
     return dict(el=el, iso=iso, I=I, n=n, ms=ms, efg=efg, others=others, orient=orient, flags=flags, bins=rng.choice([31, 64, 100, 151, 200]),
                 broad_rel=rng.choice([None, None, 0.01, 0.03]), ref=rng.choice([None, None, 0.0, round(rng.uniform(-200, 200), 2)]), use_reference=rng.choice([None, None, True, False]),
@@ -124,14 +125,21 @@ def spectrum(c, name, case, lo, hi, broad, units=None, flags=None, bins=None, us
     larm = c.get_larmor_frequency(name)
     k = 1.0 if units == "ppm" else larm * 1e-6
     ur = case["use_reference"] if use_reference == "case" else use_reference
-    return quiet(c.spectrum_1d, name, lo * k, hi * k, bins or case["bins"], freq_broad=broad, freq_units=units, effects=flagval(flags or case["flags"]),
-                 use_central=case["use_central"], use_reference=ur)
+    a_, b_ = sorted([lo * k, hi * k])        # the caller gives an ascending window in the chosen unit (for gamma < 0 the ppm axis then runs downwards)
+    s_, f_ = quiet(c.spectrum_1d, name, a_, b_, bins or case["bins"], freq_broad=broad, freq_units=units, effects=flagval(flags or case["flags"]),
+                   use_central=case["use_central"], use_reference=ur)
+    if k < 0:
+        s_, f_ = np.array(s_)[::-1], np.array(f_)[::-1]      # reported in the order of increasing ppm
+    return s_, f_
 
 
 def cs_peaks(case, c):
     """independent: chemical-shift frequencies of every nucleus at every orientation (n . sym(sigma) . n, or the isotropic value)"""
     fl = flagval(case["flags"])
     dirs = np.array(c._orients[0])
+    if case["orient"]["kind"] == "crystal":
+        th, ph = case["orient"]["theta"], case["orient"]["phi"]
+        dirs = np.array([[math.sin(th) * math.cos(ph), math.sin(th) * math.sin(ph), math.cos(th)]])      # independent of set_single_crystal
     out = []
     for T in case["ms"]:
         T = np.array(T)
@@ -235,7 +243,13 @@ def check_case(case, collect=None):
     other = "MHz" if case["units"] == "ppm" else "ppm"
     s2, f2 = spectrum(c, name, case, lo, hi, broad, units=other)
     k2 = 1.0 if other == "ppm" else larm * 1e-6
-    if not (np.all(np.isfinite(s2)) and np.allclose(s2, s, atol=1e-7 * max(1.0, s.max()))):
+    same_units = np.all(np.isfinite(s2)) and np.allclose(s2, s, atol=1e-7 * max(1.0, s.max()))
+    if not same_units and np.all(np.isfinite(s2)) and larm < 0 and broad is not None and powder and has_orient and bins % 2 == 0:
+        # np.convolve(mode="same") with an even number of bins is off-centre by half a bin; on the downward-running axis of a negative-gamma nucleus the
+        # half bin goes the other way, so the two spectra may differ by a one-bin shift (sub-bin effect, not claimed)
+        s2a = np.array(s2)
+        same_units = any(np.allclose(s2a[2 + d:bins - 2 + d], s[2:bins - 2], atol=1e-2 * max(1.0, s.max())) for d in (-1, 1))
+    if not same_units:
         probs.append("the %s spectrum differs from the %s spectrum of the same window (max diff %s)" % (other, case["units"], np.abs(np.array(s2) - s).max()))
     elif not np.allclose(np.array(f2) / k2, f / k, atol=1e-9 * max(1.0, np.abs(f / k).max())):
         probs.append("ppm and MHz axes do not differ by the Larmor frequency alone")
@@ -311,7 +325,7 @@ def run(ctx):
     ctx.rule = ("samples of 1-6 observed nuclei (+ other elements) with generic / axial / isotropic shielding (axis-aligned or rotated, optional antisymmetric part) "
                 "and EFG tensors x {1H, 2H, 14N, 23Na, 7Li, 17O, 27Al, 29Si, 13C} x 12 flag combinations x {single crystal (poles, equator, random), powder N in "
                 "{2,3,4,5,8,12,16,32} x 3 modes} x bins x {no broadening, 1%, 3% of the window} x reference {unset, 0, random} x use_reference {None, True, False} "
-                "x {ppm, MHz} x field given in MHz or T x use_central x window {all peaks, upper part}")
+                "x {ppm, MHz} x field given in MHz or T x use_central x window {all peaks, upper part}; plus a stream of axially symmetric tensors along a Cartesian axis (exact ties between vertex frequencies)")
     ctx.trusted += ["py2v nmr_flags translator; hand model coq/model/SpecBody.v on top of TentBody.v (shared with C13)",
                     "np.isclose(sum, 0) is modelled as sum = 0; float bin edges x_k +- dx/2 are modelled as the contiguous rationals x_0 - dx/2 + k dx; the "
                     "Gaussian broadening paths (np.exp, np.convolve) and the second-order quadrupolar formulas are not modelled: they are judged by the oracles "
@@ -362,9 +376,37 @@ def run(ctx):
                 if e_:
                     exprs.append(e_)
                     metas.append((case, col["s"]))
+    # axially symmetric tensors along a Cartesian axis: many triangles have two (exactly) equal vertex frequencies
+    for it in range(12 if quick else 200):
+        case = rand_case(rng, force=rng.choice([("H", None, 0.5), ("C", 13, 0.5), ("Si", None, 0.5), ("H", 2, 1.0)]))
+        ax_ = rng.randrange(3)
+        ms = []
+        for _ in range(case["n"]):
+            c0, d_ = rng.randint(-40, 40) / 2, rng.choice([-1, 1]) * rng.randint(4, 60) / 2
+            ev = [c0, c0, c0]
+            ev[ax_] = c0 + d_
+            ms.append(np.diag(ev).tolist())
+        case.update(ms=ms, axis_aligned=True, orient=dict(kind="powder", N=rng.choice([2, 3, 4, 6, 8]), mode=rng.choice(MODES)), flags=rng.choice(["CS", "CS", "CS_ORIENT"]),
+                    broad_rel=None, window="all", bins=rng.choice([24, 31, 64]))
+        col = {}
+        ctx.evaluations += 1
+        try:
+            pr, info = check_case(case, collect=col)
+        except Exception as e:
+            pr = ["raised %s: %s" % (type(e).__name__, str(e)[:160])]
+        ctx.seen(("axial-aligned", case["orient"]["mode"], case["orient"]["N"], ax_, not pr))
+        for p_ in pr[:1]:
+            ctx.fail_input("spectrum", case, p_, classify)
+        if ok and col and not pr and len(exprs) < (10 if quick else 90):
+            ntri = len(col["c"]._orients[2]) * case["n"] * int(round(2 * case["I"]))
+            if ntri * case["bins"] <= 800:
+                e_ = model_expr(case, col["c"], col["lo"], col["hi"])
+                if e_:
+                    exprs.append(e_)
+                    metas.append((case, col["s"]))
     # make sure the model correspondence has cases: small powders, CS only
     t = 0
-    while ok and len(exprs) < (8 if quick else 80) and t < 400:
+    while ok and len(exprs) < (12 if quick else 100) and t < 400:
         t += 1
         case = rand_case(rng, force=rng.choice([("H", None, 0.5), ("H", 2, 1.0), ("C", 13, 0.5)]))
         case.update(orient=dict(kind="powder", N=rng.choice([2, 2, 3]), mode=rng.choice(MODES)), flags=rng.choice(["CS", "CS_ORIENT"]), broad_rel=None,
